@@ -10,12 +10,33 @@
                                                                                : (g.unref_calls == g_u0 + (g_P0 - g.pipe_len) && g.enq_calls == g_e0 && flushed->len == 0)) \
     __CPROVER_decreases(g.pipe_len)
 #endif
+#ifdef V_TELLSUBS_UNIT
+#define M_VERIF_LOOPSPEC_ps_tellsubs \
+    __CPROVER_assigns(m_itr, m_idx, g_mit->idx, g.mit_freed, g.itr_get_calls, g.modis_calls, g.modis_mask, g.elig_count, g.fetchsub_calls, g.hits, g.tellif_calls) \
+    __CPROVER_loop_invariant(m_itr == NULL ? (g_mit->idx == g_tab->len && g.mit_freed == g_fr0 + (g_tab->len > 0 ? 1 : 0)) \
+                                           : (m_itr == (m_map_itr_t *)g_mit && g_mit->m == (m_map_t *)g_tab && g_mit->idx < g_tab->len && g.mit_freed == g_fr0)) \
+    __CPROVER_loop_invariant(g.modis_calls == g_m0 + g_mit->idx && (g_mit->idx == 0 || g.modis_mask == (M_MOD_RUNNING | M_MOD_PAUSED))) \
+    __CPROVER_loop_invariant(g.fetchsub_calls - g_f0 == g.elig_count - g_el0 && g.tellif_calls - g_t0 == g.hits - g_h0) \
+    __CPROVER_decreases(g_tab->len - g_mit->idx)
+#endif
+#ifdef V_FETCHSUB_UNIT
+#define M_VERIF_LOOPSPEC_ps_fetch \
+    __CPROVER_assigns(m_itr, m_idx, sub, g_mit->idx, g.mit_freed, g.itr_get_calls, g.regexec_calls) \
+    __CPROVER_loop_invariant(m_itr == NULL ? (g_mit->idx == g_tab->len && g.mit_freed == g_fr0 + (g_tab->len > 0 ? 1 : 0)) \
+                                           : (m_itr == (m_map_itr_t *)g_mit && g_mit->m == (m_map_t *)g_tab && g_mit->idx < g_tab->len && g.mit_freed == g_fr0)) \
+    __CPROVER_loop_invariant(g.regexec_calls == g_r0 + g_mit->idx && g_mit->idx <= g_match_at && g_free_calls == g_fc0 && !g_exact) \
+    __CPROVER_decreases(g_tab->len - g_mit->idx)
+#endif
 #include "vmodel.h"
 #include "core/ps.c"            /* the real translation unit, unmodified */
 static m_queue_t *g_evq;
 #include "abs.contracts.h"
 #include "cb.contracts.h"
+#if defined(V_TELLSUBS_UNIT) || defined(V_FETCHSUB_UNIT)
+#include "subs.contracts.h"
+#else
 #include "ps.contracts.h"
+#endif
 
 #define H_INPUTS(X) V_MOD_INPUTS(X) X(uint64_t, evq_len) X(uint8_t, has_topic) X(uint8_t, has_key) X(uint8_t, alloc_fails) X(uint8_t, pipe_full) X(uint8_t, autofree) X(uint64_t, pipe_len) X(uint8_t, stopping) X(uint8_t, has_sub)
 V_DEFINE_INPUTS(H_INPUTS)
@@ -69,6 +90,37 @@ void h_flush(void) {
     int r = flush_pubsub_msgs(NULL, (vin_stopping & 1) ? NULL : "k", g_mod);
     V_COVER("flush-deliver-many", !(vin_stopping & 1) && vin_state == M_MOD_RUNNING && vin_pipe_len == 1000 && r == 0); V_COVER("flush-discard-stopping", (vin_stopping & 1) && vin_pipe_len == 3);
     V_COVER("flush-discard-paused", !(vin_stopping & 1) && vin_state == M_MOD_PAUSED && vin_pipe_len > 0); V_COVER("flush-direct-tell", !(vin_stopping & 1) && vin_state == M_MOD_RUNNING && !vin_has_sub && vin_pipe_len > 0);
+    V_CANARY();
+}
+#endif
+
+#if defined(V_TELLSUBS_UNIT) || defined(V_FETCHSUB_UNIT)
+static char g_topicbuf[2] = "t";
+static void build_subs(void) {
+    build();
+    V_ASSUME(vin_pipe_len < ((uint64_t)1 << 58));
+    g_tab = malloc(sizeof *g_tab); g_mit = malloc(sizeof *g_mit); g_psrc = malloc(sizeof *g_psrc); g_msg = malloc(sizeof *g_msg); __CPROVER_assume(g_tab && g_mit && g_psrc && g_msg);
+    g_tab->len = vin_pipe_len; g_tab->internal = 0; g_mit->m = NULL; g_mit->idx = 0; g_topic = g_topicbuf; g_msg->msg.topic = g_topic; g_msg->sub = NULL; g_msg->flags = 0;
+    g_m0 = g.modis_calls; g_el0 = g.elig_count; g_f0 = g.fetchsub_calls; g_h0 = g.hits; g_t0 = g.tellif_calls; g_fr0 = g.mit_freed; g_r0 = g.regexec_calls; g_fc0 = g_free_calls;
+}
+#endif
+#ifdef V_TELLSUBS_UNIT
+void h_tell_subscribers(void) {
+    build_subs();
+    g_ctx->modules = (m_map_t *)g_tab;
+    tell_subscribers(g_msg, g_ctx);
+    V_COVER("publish-three-modules-two-told", vin_pipe_len == 3 && g.tellif_calls == 2 && g.elig_count == 3); V_COVER("publish-no-modules", vin_pipe_len == 0);
+    V_COVER("publish-nobody-subscribed", vin_pipe_len == 2 && g.tellif_calls == 0 && g.fetchsub_calls == 2); V_COVER("publish-many", vin_pipe_len == 100000 && g.tellif_calls == 7);
+    V_CANARY();
+}
+#endif
+#ifdef V_FETCHSUB_UNIT
+void h_fetch_sub(void) {
+    build_subs();
+    g_mod->subscriptions = (m_map_t *)g_tab; g_exact = vin_has_sub & 1; g_match_at = vin_evq_len;
+    ev_src_t *r = fetch_sub(g_mod, g_topic);
+    V_COVER("sub-exact", r != NULL && (vin_has_sub & 1)); V_COVER("sub-pattern-third-of-five", r != NULL && !(vin_has_sub & 1) && vin_pipe_len == 5 && vin_evq_len == 2);
+    V_COVER("sub-none-of-four", r == NULL && vin_pipe_len == 4); V_COVER("sub-empty-table", r == NULL && vin_pipe_len == 0); V_COVER("sub-pattern-last", r != NULL && !(vin_has_sub & 1) && vin_pipe_len == 3 && vin_evq_len == 2);
     V_CANARY();
 }
 #endif
